@@ -148,6 +148,7 @@ Proof.
   unfold load. set (fuel := S (S (List.length fs))).
   destruct (resolve_sym fs cfg _ (parent entry)) as [obj|].
   - destruct (load_module fuel fs cfg st0 obj) as [st1|e] eqn:E1; [|discriminate].
+    destruct (pkg_eqb (pkg_of fs obj) ["bloch"; "lang"]%string); [|discriminate].
     destruct (load_module_spec fs cfg fuel _ _ _ E1 (Inv_st0 fs cfg)) as (I1 & _ & _ & _).
     destruct (load_module fuel fs cfg st1 entry) as [st2|e] eqn:E2; [|discriminate].
     destruct (load_module_spec fs cfg fuel _ _ _ E2 I1) as (I2 & _ & _ & Hin).
@@ -157,6 +158,17 @@ Proof.
     destruct (load_module_spec fs cfg fuel _ _ _ E2 (Inv_st0 fs cfg)) as (I2 & _ & _ & Hin).
     destruct (Nat.eqb_spec (total_mains fs (order st2)) 1); [|discriminate]. intros [= <-].
     split; [apply I2|]. split; [assumption|]. split; [apply I2|assumption].
+Qed.
+
+(* the implicitly loaded root module is held to the same rule as an import of bloch.lang.Object *)
+Theorem load_checks_the_implicit_root fs cfg entry ord obj :
+  load fs cfg entry = inl ord ->
+  resolve_sym fs cfg ["bloch"; "lang"; "Object"]%string (parent entry) = Some obj ->
+  pkg_eqb (pkg_of fs obj) ["bloch"; "lang"]%string = true.
+Proof.
+  unfold load. intros H R. rewrite R in H.
+  destruct (load_module _ fs cfg st0 obj) as [st1|e]; [|discriminate].
+  destruct (pkg_eqb (pkg_of fs obj) ["bloch"; "lang"]%string); [reflexivity|discriminate].
 Qed.
 
 (* ---------- resolution order ---------- *)
@@ -274,6 +286,7 @@ Proof.
   { intros p. apply load_module_nofuel; [apply Inv_st0|constructor|intros x []|cbn; unfold fuel; lia]. }
   destruct (resolve_sym fs cfg _ (parent entry)) as [obj|].
   - destruct (load_module fuel fs cfg st0 obj) as [st1|e] eqn:E1; [|intros [= ->]; apply (H0 obj); assumption].
+    destruct (pkg_eqb (pkg_of fs obj) ["bloch"; "lang"]%string); [|discriminate].
     destruct (load_module_spec fs cfg fuel _ _ _ E1 (Inv_st0 fs cfg)) as (I1 & S1 & _ & _).
     destruct (load_module fuel fs cfg st1 entry) as [st2|e] eqn:E2.
     + destruct (Nat.eqb (total_mains fs (order st2)) 1); discriminate.
